@@ -252,6 +252,37 @@ Theorem c13_set_extends_list_with_nulls_example :
 Proof. exact frame_needs_existing. Qed.
 Print Assumptions c13_set_extends_list_with_nulls_example.
 
+(* byte level, through quote_key: "k=v" leaves whatever the descriptor of another key finds unchanged
+   (vget, vget_subtree, vtype, vcount and vkeys all read through get_node) *)
+Theorem c13_set_leaves_other_keys_unchanged (root : node) (k k' v : bytes) (x : node) :
+  k <> [] -> k' <> [] -> k' <> k ->
+  get_node root (quote_key k') = inr x ->
+  get_node (fst (vset root (quote_key k ++ 61%N :: v))) (quote_key k') = inr x.
+Proof. exact (set_quoted_frame root k k' v x). Qed.
+Print Assumptions c13_set_leaves_other_keys_unchanged.
+
+(* frame law of delete: what vnaproperty_delete does to the tree once the path is found leaves every
+   readable path that branches off unchanged; where the LAST step of the deleted path is a subscript the
+   higher subscripts move down (c13_delete_shifts), so there only lower subscripts keep their position *)
+Theorem c13_delete_leaves_other_paths_unchanged (es1 es2 : list expr) (n v : node) :
+  diverge_del es1 es2 ->
+  descend_get es2 n = inr v ->
+  descend_get es2 (delete_at es1 n) = inr v.
+Proof. intros Hd. exact (delete_frame es1 es2 Hd n v). Qed.
+Print Assumptions c13_delete_leaves_other_paths_unchanged.
+
+Theorem c13_delete_leaves_other_paths_unchanged_example :
+  let n := NMap [([97%N], NList [NScalar [120%N]; NScalar [121%N]; NScalar [122%N]] 8); ([98%N], NScalar [119%N])] in
+  let del := [E_MAP_ELEMENT [97%N]; E_LIST_ELEMENT 1] in
+  diverge_del del [E_MAP_ELEMENT [97%N]; E_LIST_ELEMENT 0] /\
+  diverge_del del [E_MAP_ELEMENT [98%N]] /\
+  descend_get [E_MAP_ELEMENT [97%N]; E_LIST_ELEMENT 0] (delete_at del n) = inr (NScalar [120%N]) /\
+  descend_get [E_MAP_ELEMENT [98%N]] (delete_at del n) = inr (NScalar [119%N]) /\
+  descend_get [E_MAP_ELEMENT [97%N]; E_LIST_ELEMENT 1] (delete_at del n) = inr (NScalar [122%N]) /\
+  descend_get [E_MAP_ELEMENT [97%N]; E_LIST_ELEMENT 2] (delete_at del n) = inl ENOENT.
+Proof. exact delete_frame_example. Qed.
+Print Assumptions c13_delete_leaves_other_paths_unchanged_example.
+
 (* delete removes the entry and shifts the higher indices down by one *)
 Theorem c13_delete_shifts (i : nat) (vec : list node) (al j : nat) :
   (i < length vec)%nat ->
